@@ -56,7 +56,15 @@ func (env *Env) call(e *spec.Call) Value {
 		if env.frame != nil && env.oldNames == nil {
 			c.names = env.names
 		}
-		return c.eval(e.Args[0])
+		n0 := len(env.old.pc)
+		r := c.eval(e.Args[0])
+		// facts learnt about values of the pre-state (allocation stamps, shapes) hold on the current path as well
+		if env.st != env.old {
+			for _, f := range env.old.pc[n0:] {
+				env.st.assume(f)
+			}
+		}
+		return r
 	case "len", "cap":
 		argc(1)
 		v := env.eval(e.Args[0])
@@ -182,6 +190,34 @@ func (env *Env) call(e *spec.Call) Value {
 			specErr("fresh() needs a pre-state")
 		}
 		return scalar(tBool, smt.IntBin(">", en.stamp(r), env.old.clock))
+	case "elem":
+		// elem(m): a (zero) value of the element type of a map or slice - used where only the type matters (Every(elem(m).f))
+		argc(1)
+		v := env.eval(e.Args[0])
+		switch t := types.Unalias(v.T).Underlying().(type) {
+		case *types.Map:
+			return en.zero(t.Elem())
+		case *types.Slice:
+			return en.zero(t.Elem())
+		}
+		specErr("elem() of %s: not a map or slice", exprString(e.Args[0]))
+	case "allocated":
+		// allocated(p): the object p designates exists in this state (it was allocated no later than now)
+		argc(1)
+		v := env.eval(e.Args[0])
+		r := en.leavesOf(v)[0]
+		if r.Sort != smt.Ref {
+			specErr("allocated() of a non-reference")
+		}
+		if env.foreignAlloc && en.curUnit != nil && en.curUnit.entry != nil {
+			// at the acquisition of a monitor: what the guarded state refers to existed when the unit started, or was
+			// allocated by another goroutine meanwhile; it is none of the unit's own allocations (which the unit has had no
+			// opportunity to publish into the guarded state: it did not hold the lock)
+			f := en.ctx.Fun("foreign", []smt.Sort{smt.Ref}, smt.Bool)
+			return scalar(tBool, smt.And(smt.IntBin("<=", en.stamp(r), env.st.clock),
+				smt.Or(smt.IntBin("<=", en.stamp(r), en.curUnit.entry.clock), smt.App(smt.Bool, f, r))))
+		}
+		return scalar(tBool, smt.IntBin("<=", en.stamp(r), env.st.clock))
 	case "implies":
 		argc(2)
 		return scalar(tBool, smt.Implies(env.evalBool(e.Args[0]), env.evalBool(e.Args[1])))
@@ -251,6 +287,63 @@ func (env *Env) call(e *spec.Call) Value {
 		argc(1)
 		v := env.eval(e.Args[0])
 		return env.x.loadVia(env.st, env.x.ptrOf(v))
+	case "visited":
+		// visited(k): the key has been produced by the map iteration of the loop (the only one of the function)
+		argc(1)
+		var keys []string
+		for n := range env.st.ghostLocals {
+			if strings.HasPrefix(n, "$visited#") {
+				keys = append(keys, n)
+			}
+		}
+		if len(keys) != 1 {
+			specErr("visited(): the function must have exactly one running map iteration (has %d)", len(keys))
+		}
+		kv := env.eval(e.Args[0])
+		return scalar(tBool, smt.Select(env.st.ghostLocals[keys[0]].L[0], en.leavesOf(kv)[0]))
+	case "aload":
+		// aload(x): the pointer held by x, a value of type atomic.Pointer[T], typed *T
+		argc(1)
+		v := env.eval(e.Args[0])
+		n, _ := types.Unalias(v.T).(*types.Named)
+		if n == nil || n.Obj().Pkg() == nil || n.Obj().Pkg().Path() != "sync/atomic" || n.Obj().Name() != "Pointer" || n.TypeArgs().Len() != 1 {
+			specErr("aload: %s is not an atomic.Pointer", exprString(e.Args[0]))
+		}
+		fi := fieldIndex(v.T, "v")
+		fv := en.subValue(v, v.T, []int{fi})
+		return Value{T: types.NewPointer(n.TypeArgs().At(0)), L: fv.L}
+	case "atlock":
+		// atlock(e): e in the state right after the unit last acquired a monitor lock - the state in which an operation
+		// that takes the lock takes effect; the entry state when no lock was acquired; the pre-state at call sites
+		argc(1)
+		if env.inOld {
+			return env.eval(e.Args[0])
+		}
+		if env.atCallSite || env.st.atLock == nil {
+			if env.old == nil {
+				return env.eval(e.Args[0])
+			}
+			return env.eval(&spec.Call{Fun: &spec.Ident{Name: "old"}, Args: e.Args})
+		}
+		c := env.child()
+		c.st = env.st.atLock
+		c.old = nil
+		c.inOld = true
+		if env.oldNames != nil {
+			c.names = env.oldNames
+		}
+		c.frame = nil
+		if env.frame != nil && env.oldNames == nil {
+			c.names = env.names
+		}
+		n0 := len(c.st.pc)
+		r := c.eval(e.Args[0])
+		if env.st != c.st {
+			for _, f := range c.st.pc[n0:] {
+				env.st.assume(f)
+			}
+		}
+		return r
 	}
 	// conversions to basic / named types
 	if t := env.lookupType(name); t != nil && len(e.Args) == 1 {
@@ -354,6 +447,10 @@ func (env *Env) specCall(sf *spec.SpecFunc, args []spec.Expr) Value {
 	c.pkgPath = sf.Pkg
 	for i, p := range sf.Params {
 		v := env.eval(args[i])
+		if p.Type == nil {
+			c.names[p.Name] = v
+			continue
+		}
 		pt := c.resolveType(p.Type)
 		if v.T == tUntypedInt || v.T == types.Typ[types.UntypedNil] {
 			v = env.conversion(pt, v)
@@ -370,6 +467,9 @@ func (env *Env) specCall(sf *spec.SpecFunc, args []spec.Expr) Value {
 	// bound variables stay visible for nested quantifier bodies
 	c.bound = env.bound
 	r := c.eval(sf.Body)
+	if sf.Result == nil {
+		return r
+	}
 	rt := c.resolveType(sf.Result)
 	if r.T == tUntypedInt {
 		r = env.conversion(rt, r)
@@ -961,6 +1061,18 @@ func (env *Env) havocLocation(st *State, m spec.Expr) {
 			}
 			return
 		}
+		if ok && id.Name == "Every" && len(m.Args) == 1 {
+			// Every(x.f.g): field f.g of every object of x's type (a footprint over objects the caller cannot name)
+			sel, isSel := m.Args[0].(*spec.Sel)
+			if !isSel {
+				specErr("Every(x.f): a field selector is expected")
+			}
+			p := env.lvalPtr(sel)
+			prefix, _ := en.followPath(p.Root, p.Path)
+			prefix = objKeyPrefix(p.Root) + prefix
+			env.x.havocPrefix(st, prefix, false)
+			return
+		}
 		if ok && id.Name == "deref" && len(m.Args) == 1 {
 			v := env.eval(m.Args[0])
 			p := env.x.ptrOf(v)
@@ -1098,6 +1210,10 @@ func (x *exec) callSiteAsserts(st *State, fr *Frame, ins ssa.Instruction, ci cal
 				return x.guardedGoal(env, cl.Expr)
 			}()
 			x.e.obligation(st, "callsite", detail, cl.Tag, text, cl.Pos.String(), g)
+		}
+		for _, cl := range cs.Assumes {
+			st.assume(env.evalBool(cl.Expr))
+			x.e.note("assumption of %s before the call to %s (invariant of shared state, not proved here): %s", x.unit.Name, shortKey(want), cl.Text)
 		}
 	}
 }
